@@ -190,7 +190,21 @@ class World:
             self.trace.append(list(op))
             return
         elif kind == 'disp':
-            env.dispatch()
+            # what every connection had been sent at the moment the tick itself fired the archive
+            mark = {}
+            env.fsm.on_archive = lambda: mark.update({w: len(decode(h.transport.written))
+                                                     for w, h in self.hands.items()})
+            try:
+                env.dispatch()
+            finally:
+                env.fsm.on_archive = None
+            if mark:
+                for w, h in self.hands.items():
+                    for m in decode(h.transport.written)[mark.get(w, 0):]:
+                        if m[0] == 'task':
+                            self.hit('ineligible-worker',
+                                     f'task {m[1]}[{m[2]}] sent to connection {w} after this very tick had fired the '
+                                     f'archive: the pipeline was no longer active')
             new = [[self.idx[t], self.tnum[tg], rid] for t, tg, rid, _nr in self.put_log]
             # message fields: run id 0 for regressions, else the id the triggering event carried,
             # else ONE fresh id per job and tick, strictly larger than every id used before
@@ -341,6 +355,12 @@ def scenarios(env):
     # the tick that fires the archive: new data armed, nothing queued or busy, workers waiting
     out.append([('active', True), ('reg', True, 1), ('reg', True, 0), ('archive', True), ('disp',), ('disp',),
                 ('active', True), ('archive', False), ('reg', True, 1), ('disp',)])
+    # new data armed while units still wait for a worker: fewer workers than units on the first tick, the busy
+    # worker answers and registers again, the next tick must place the waiting unit, not start the archive
+    out.append([('active', True), ('reg', True, 0), ('org', list(tags), None, list(tg)), ('disp',), ('reply', 0.0),
+                ('archive', True), ('reg', True, 0), ('disp',), ('reply', 0.0), ('reg', True, 0), ('disp',), ('disp',)])
+    out.append([('active', True), ('reg', True, 0), ('reg', True, 1), ('org', list(tags), 3, list(tg)), ('disp',),
+                ('archive', True), ('reply', 0.0), ('reg', True, 1), ('disp',), ('reply', 0.0), ('disp',)])
     # reload: stale workers must not get work after the revision changed
     out.append([('active', True), ('reg', True, 1), ('active', False), ('setrev', 'rev1'), ('notify',), ('clear',),
                 ('active', True), ('reg', True, 1), ('reg', False, 1), ('org', [tags[0]], 4, list(tg)), ('disp',)])
